@@ -448,6 +448,50 @@ impl Ty {
         )
     }
 
+    /// true if a value of this type holds an address anywhere inside it
+    /// (a pointer, a function, a `str`, a slice, an `any`, ...).
+    ///
+    /// The bytes of such a value are only meaningful while the memory they point to exists,
+    /// which is why they can't be the result of a comptime block.
+    pub fn contains_pointer(&self) -> bool {
+        match self {
+            Ty::String
+            | Ty::Slice { .. }
+            | Ty::Pointer { .. }
+            | Ty::Any
+            | Ty::RawPtr { .. }
+            | Ty::RawSlice
+            | Ty::NaivePolymorphicFunction { .. }
+            | Ty::ConcreteFunction { .. }
+            | Ty::FunctionPointer { .. } => true,
+            Ty::AnonArray { sub_ty, .. }
+            | Ty::ConcreteArray { sub_ty, .. }
+            | Ty::Distinct { sub_ty, .. }
+            | Ty::EnumVariant { sub_ty, .. }
+            | Ty::Optional { sub_ty } => sub_ty.contains_pointer(),
+            Ty::AnonStruct { members } | Ty::ConcreteStruct { members, .. } => {
+                members.iter().any(|MemberTy { ty, .. }| ty.contains_pointer())
+            }
+            Ty::Enum { variants, .. } => variants.iter().any(|v| v.contains_pointer()),
+            Ty::ErrorUnion {
+                error_ty,
+                payload_ty,
+            } => error_ty.contains_pointer() || payload_ty.contains_pointer(),
+            Ty::NotYetResolved
+            | Ty::Unknown
+            | Ty::IInt(_)
+            | Ty::UInt(_)
+            | Ty::Float(_)
+            | Ty::Bool
+            | Ty::Char
+            | Ty::Type
+            | Ty::File(_)
+            | Ty::Nil
+            | Ty::Void
+            | Ty::AlwaysJumps => false,
+        }
+    }
+
     pub fn is_struct(&self) -> bool {
         matches!(
             self.absolute_ty(),
